@@ -199,7 +199,7 @@ def gen_case(rng):
 
 
 def plan(tier, seed, n):
-    per = 250 if tier == 'quick' else 8000
+    per = 600 if tier == 'quick' else 25000
     return [{'n': per} for _ in range(n)]
 
 
